@@ -2921,8 +2921,15 @@ impl Translator {
             }
             ExprKind::FuncCall(func, args) => {
                 self.collect_locals_expr(func, locals, mono);
-                for arg in args {
-                    self.collect_locals_expr(&arg.val, locals, mono);
+                // default values are evaluated in the caller's frame
+                if let Some(reordered_args) = self.statics.function_call_arg_order.get(&expr.id) {
+                    for arg_val in reordered_args {
+                        self.collect_locals_expr(arg_val, locals, mono);
+                    }
+                } else {
+                    for arg in args {
+                        self.collect_locals_expr(&arg.val, locals, mono);
+                    }
                 }
             }
 
